@@ -111,4 +111,209 @@ theorem finalize_releases_stable (br : BR) (op : Op) (c : Cfg) (w : World) (exp 
           rcases dropFn_some hdf with h | ⟨_, h⟩ <;> subst h <;> simp [releaseStable]
   · rfl
 
+/-! ## C18 — the finalizer on canary Deployments is removed only by `Finalize` -/
+
+/-- **C18** — outside `Finalize` no Deployment loses the batch-release finalizer (or any finalizer), none
+    is put into deletion and none disappears: `Initialize`, `UpgradeBatch` and
+    `EnsureBatchPodsReadyAndLabeled` never tear anything down, under any fault. -/
+theorem finalizer_only_by_finalize (br : BR) (op : Op) (c : Cfg) (w : World) (exp : Exp)
+    (hnd : namesNodup w = true) :
+    finalizerOnlyByFinalize op w (call br op c w exp) = true := by
+  unfold finalizerOnlyByFinalize
+  split
+  · rfl
+  · rename_i hop
+    have hndw := (namesNodup_iff w).mp hnd
+    obtain ⟨id, f, ids, hf, hwhich, hids, hworld⟩ := call_shape br op c w exp
+    have hids' : ids = [] := by
+      rcases hids with h | ⟨h, _⟩
+      · exact h
+      · exact absurd h hop
+    subst hids'
+    have hfields : ∀ d, (f d).finalizer = d.finalizer ∧ (f d).otherFinalizer = d.otherFinalizer ∧
+        (f d).deleting = d.deleting := by
+      intro d
+      rcases hwhich with rfl | ⟨_, _, rfl⟩ | ⟨h, _⟩ | ⟨_, cd, t, cur, st, _, rfl, _⟩
+      · exact ⟨rfl, rfl, rfl⟩
+      · exact ⟨rfl, rfl, rfl⟩
+      · exact absurd h hop
+      · exact ⟨rfl, rfl, rfl⟩
+    apply List.all_eq_true.mpr
+    intro d hd
+    rw [find_after hf hndw (shape_after hf hworld) hd, eff_nil]
+    dsimp only
+    split <;> simp [hfields]
+
+/-- **C18 / isolation** — a Deployment that is neither owned by this BatchRelease nor its workload is never
+    touched by any call, under any fault. -/
+theorem foreign_untouched (br : BR) (op : Op) (c : Cfg) (w : World) (exp : Exp)
+    (hnd : namesNodup w = true) :
+    foreignUntouched br w (call br op c w exp) = true := by
+  unfold foreignUntouched
+  have hndw := (namesNodup_iff w).mp hnd
+  obtain ⟨id, f, ids, hf, hwhich, hids, hworld⟩ := call_shape br op c w exp
+  have hafter := shape_after hf hworld
+  apply List.all_eq_true.mpr
+  intro d hd
+  cases ho : owned d
+  case true => simp
+  case false =>
+    by_cases hk : d.name = br.key
+    · simp [hk]
+    · have hown : d.owner ≠ .this := by simpa [owned] using ho
+      -- the single write does not hit `d`
+      have hx : (if d.name = id then f d else d) = d := by
+        rcases hwhich with rfl | ⟨_, rfl, _⟩ | ⟨_, rfl, _⟩ | ⟨_, cd, t, cur, st, rfl, _, _, _, hsel, _⟩
+        · simp
+        · simp [hk]
+        · simp [hk]
+        · obtain ⟨hcd, hcdo, _⟩ := selectCanary_mem hsel
+          have : d.name ≠ cd.name := by
+            intro he
+            have h1 := find_of_mem hndw hd
+            have h2 := find_of_mem hndw hcd
+            rw [he, h2] at h1
+            cases h1
+            exact hown hcdo
+          simp [this]
+      -- nor do the finalizer removals
+      have hnin : d.name ∉ ids := by
+        rcases hids with rfl | ⟨_, hids⟩
+        · simp
+        · intro hin
+          have := (ids_owned hf hndw hids hd hin).1
+          rw [hx] at this
+          exact hown this
+      have : eff id f ids d = some d := by
+        unfold eff dropFn
+        rw [hx]; simp [hnin]
+      rw [find_after hf hndw hafter hd, this]
+      simp
+
+/-- **C18** — `Finalize` takes nothing from the Deployments but the batch-release finalizer, and only from
+    Deployments this BatchRelease owns; an owned Deployment disappears only if it was already in deletion
+    and that finalizer was its last one. -/
+theorem finalize_only_drops_finalizer (br : BR) (op : Op) (c : Cfg) (w : World) (exp : Exp)
+    (hnd : namesNodup w = true) :
+    finalizeOnlyDropsFinalizer br op w (call br op c w exp) = true := by
+  unfold finalizeOnlyDropsFinalizer
+  split
+  · rename_i hop
+    subst hop
+    have hndw := (namesNodup_iff w).mp hnd
+    obtain ⟨id, f, ids, hf, hwhich, hids, hworld⟩ := call_shape br .fin c w exp
+    have hafter := shape_after hf hworld
+    apply List.all_eq_true.mpr
+    intro d hd
+    by_cases hk : d.name = br.key
+    · simp [hk]
+    · have hx : (if d.name = id then f d else d) = d := by
+        rcases hwhich with rfl | ⟨h, _⟩ | ⟨_, rfl, _⟩ | ⟨h, _⟩
+        · simp
+        · cases h
+        · simp [hk]
+        · cases h
+      have hown : d.name ∈ ids → owned d = true ∧ d.finalizer = true := by
+        intro hin
+        rcases hids with rfl | ⟨_, hids⟩
+        · simp at hin
+        · have := ids_owned hf hndw hids hd hin
+          rw [hx] at this
+          exact ⟨by simp [owned, this.1], this.2⟩
+      rw [find_after hf hndw hafter hd]
+      unfold eff
+      rw [hx]
+      cases hdf : dropFn ids d with
+      | none =>
+        obtain ⟨h1, h2, h3⟩ := dropFn_none hdf
+        obtain ⟨h4, h5⟩ := hown h1
+        simp [hk, h2, h3, h4, h5]
+      | some d' =>
+        rcases dropFn_some hdf with h | ⟨h1, h⟩
+        · subst h; simp
+        · obtain ⟨h4, h5⟩ := hown h1
+          subst h
+          simp [hk, h4, h5]
+  · rfl
+
+/-! ## C01 — the canary Deployment's replicas follow the current step -/
+
+/-- **C01 `canary_replicas_within_step`** — on every path of every call (any fault index, retries
+    included) `spec.replicas` of every Deployment is left as it was, except that `UpgradeBatch` may raise
+    the replicas of a Deployment owned by this BatchRelease to **exactly**
+    `CalculateBatchReplicas(stable replicas, batches[currentBatch])`, and only from a smaller value;
+    a Deployment the plane creates starts with 0 replicas. -/
+theorem canary_replicas_within_step (br : BR) (op : Op) (c : Cfg) (w : World) (exp : Exp)
+    (hnd : namesNodup w = true) :
+    replicasWithinStep br op w (call br op c w exp) = true := by
+  unfold replicasWithinStep
+  have hndw := (namesNodup_iff w).mp hnd
+  obtain ⟨id, f, ids, hf, hwhich, hids, hworld⟩ := call_shape br op c w exp
+  have hafter := shape_after hf hworld
+  apply List.all_eq_true.mpr
+  intro d' hd'
+  rcases mem_after hf hndw hafter hd' with ⟨d, hd, heff, hfind⟩ | ⟨_, ⟨_, _, st, _, hnew, _⟩, _, hnone, _⟩
+  · rw [hfind]
+    dsimp only
+    have hrep : d'.replicas = (if d.name = id then f d else d).replicas := by
+      rcases eff_some heff with h | ⟨_, h⟩ <;> rw [h]
+    rcases hwhich with rfl | ⟨_, _, rfl⟩ | ⟨_, _, rfl⟩ | ⟨hop, cd, t, cur, st, rfl, rfl, _, _, hsel, htgt, hcur, hlt, _⟩
+    · have : d'.replicas = d.replicas := by rw [hrep]; simp
+      simp [this]
+    · have : d'.replicas = d.replicas := by rw [hrep]; split <;> rfl
+      simp [this]
+    · have : d'.replicas = d.replicas := by rw [hrep]; split <;> rfl
+      simp [this]
+    · by_cases hn : d.name = cd.name
+      · obtain ⟨hcd, hcdo, _⟩ := selectCanary_mem hsel
+        have hdcd : d = cd := by
+          have h1 := find_of_mem hndw hd
+          have h2 := find_of_mem hndw hcd
+          rw [hn, h2] at h1
+          cases h1; rfl
+        subst hdcd
+        have : d'.replicas = some t := by rw [hrep]; simp [setReplicas]
+        simp [this, hop, owned, hcdo, htgt, hcur, hlt]
+      · have : d'.replicas = d.replicas := by rw [hrep]; simp [hn]
+        simp [this]
+  · rw [hnone]
+    obtain ⟨tp, _, rfl⟩ := newCanary_some hnew
+    simp
+
+/-- **C01** — a successful `UpgradeBatch` leaves the selected canary Deployment at
+    `max(current, CalculateBatchReplicas(stable replicas, batches[currentBatch]))`: exactly the step's
+    target unless the canary was already larger (the plane never scales a canary down). -/
+theorem upgrade_reaches_target (br : BR) (op : Op) (c : Cfg) (w : World) (exp : Exp)
+    (hnd : namesNodup w = true) :
+    upgradeReachesTarget br op w (call br op c w exp) = true := by
+  unfold upgradeReachesTarget
+  split
+  · rename_i h
+    obtain ⟨hop, hres⟩ := h
+    subst hop
+    have hndw := (namesNodup_iff w).mp hnd
+    have hres' : (planeUpgradeBatch c br (S0 w exp)).2 = .ok := hres
+    obtain ⟨_, hspec⟩ := planeUpgradeBatch_spec c br w exp
+    rcases hspec with ⟨hw, hok⟩ | ⟨cd, t, cur, st, hst, hne, hsel, htgt, hcur, hlt, _, hw⟩
+    · obtain ⟨st, hst, hcase⟩ := hok hres'
+      rw [hst]
+      dsimp only
+      rcases hcase with h0 | ⟨cd, t, cur, hsel, htgt, hcur, hle⟩
+      · simp [h0]
+      · split
+        · rfl
+        · rw [hsel, htgt]
+          dsimp only
+          have hwc : (call br .upgrade c w exp).w = w := hw
+          rw [hwc, hcur, find_of_mem hndw (selectCanary_mem hsel).1]
+          simp [hcur, Int.max_eq_left hle]
+    · rw [hst]
+      dsimp only
+      rw [if_neg (by simpa using hne), hsel, htgt]
+      dsimp only
+      have hwc : (call br .upgrade c w exp).w = w.modify cd.name (setReplicas t) := hw
+      rw [hwc, hcur, find_modify _ _ _ _ (by intro d; rfl), find_of_mem hndw (selectCanary_mem hsel).1]
+      simp [setReplicas, Int.max_eq_right (Int.le_of_lt hlt)]
+  · rfl
+
 end RV.Props.CtlCanary
